@@ -169,6 +169,22 @@ func TestVerifC18(t *testing.T) {
 	for _, c := range content {
 		qs = append(qs, &query.Type{Type: query.TypeRepo, Child: c}, &query.And{Children: []query.Q{&query.Type{Type: query.TypeRepo, Child: c}, &query.Substring{Pattern: "abd"}}})
 	}
+	// type:repo below Or / Not / nested And, including sub-queries that select no repository at all
+	// (an empty selection must only empty its own branch of the query)
+	trChildren := []query.Q{content[0], content[1], &query.Substring{Pattern: "zzzabsent"}, &query.Substring{Pattern: "xyz", Content: true},
+		query.NewRepoSet(), query.NewRepoSet("alpha/one"), &query.Repo{Regexp: regexp.MustCompile("zzz")}, &query.Repo{Regexp: regexp.MustCompile("alpha")},
+		&query.And{Children: []query.Q{&query.Substring{Pattern: "abc"}, &query.Substring{Pattern: "zzzabsent"}}}}
+	var trs []query.Q
+	for _, c := range trChildren {
+		trs = append(trs, &query.Type{Type: query.TypeRepo, Child: c})
+	}
+	for i, t := range trs {
+		qs = append(qs, &query.Not{Child: t}, &query.Or{Children: []query.Q{t, content[0]}}, &query.Or{Children: []query.Q{content[1], t}},
+			&query.Or{Children: []query.Q{&query.And{Children: []query.Q{t, content[0]}}, &query.Substring{Pattern: "xyz"}}},
+			&query.And{Children: []query.Q{&query.Not{Child: t}, content[0]}}, &query.And{Children: []query.Q{t, &query.Not{Child: content[1]}}},
+			&query.Or{Children: []query.Q{t, trs[(i+1)%len(trs)]}}, &query.And{Children: []query.Q{t, trs[(i+3)%len(trs)], content[0]}},
+			&query.And{Children: []query.Q{&query.Or{Children: []query.Q{t, &query.Repo{Regexp: regexp.MustCompile("two")}}}, content[0]}})
+	}
 	// two set filters in one conjunction
 	for i := 0; i < len(filters); i += 7 {
 		for j := 3; j < len(filters); j += 11 {
